@@ -240,6 +240,9 @@ func (fl *c16Flow) judgeStartFlag(s kit.S, flag types.Object, n kit.Affine, okN 
 		if s.Get("q:unk") != "" {
 			return c16V("undec", "%s is true at the first device read on a path that passed a decision the rule does not interpret (%s)", flag.Name(), s.Get("q:unk"))
 		}
+		if why := fl.flagFromCall(flag); why != "" {
+			return c16V("undec", "%s is true at the first device read; it receives the result of %s, which the rule does not follow", flag.Name(), why)
+		}
 		return c16V("viol", "%s is true at the first device read although no byte of b[0:%s] was seen to be non-zero on this path: a delimiter at the start of the device bytes is then taken for the end of a frame", flag.Name(), n.String())
 	case "false":
 		// a moved byte was seen non-zero and the flag is false nevertheless
@@ -272,9 +275,46 @@ func (fl *c16Flow) judgeStartFlag(s kit.S, flag types.Object, n kit.Affine, okN 
 		if s.Get("q:unk") != "" || s.Get("q:scan") != "" {
 			return c16V("undec", "%s is false at the first device read and the rule cannot establish that every moved byte was examined (%s%s)", flag.Name(), s.Get("q:unk"), s.Get("q:scan"))
 		}
+		if why := fl.flagFromCall(flag); why != "" {
+			return c16V("undec", "%s is false at the first device read; it receives the result of %s, which the rule does not follow", flag.Name(), why)
+		}
 		return c16V("viol", "%s is false at the first device read although only b[0:%d] of the %s bytes moved from the leftover buffer were examined: when a later moved byte is non-zero (leftover normally starts with the frame's leading null) a started packet is taken for not started, its terminator at the start of the device bytes is skipped and the frame is lost", flag.Name(), m, n.String())
 	}
 	return c16V("undec", "the value of %s at the first device read is not followed", flag.Name())
+}
+
+// flagFromCall: the flag is assigned a value computed by a function call
+// somewhere in the reader (the call is named); what the callee looked at is
+// then not on the path.
+func (fl *c16Flow) flagFromCall(flag types.Object) string {
+	f := fl.rd.f
+	info := f.Info()
+	why := ""
+	ast.Inspect(f.Body, func(n ast.Node) bool {
+		as, ok := n.(*ast.AssignStmt)
+		if !ok || why != "" {
+			return why == ""
+		}
+		for i, l := range as.Lhs {
+			if kit.ObjOf(info, l) != flag {
+				continue
+			}
+			rhs := as.Rhs[0]
+			if len(as.Lhs) == len(as.Rhs) {
+				rhs = as.Rhs[i]
+			}
+			ast.Inspect(rhs, func(x ast.Node) bool {
+				if call, ok := x.(*ast.CallExpr); ok && why == "" {
+					if _, isB := kit.Callee(info, call).(*types.Builtin); !isB {
+						why = "`" + f.Str(call) + "` at " + f.At(call)
+					}
+				}
+				return why == ""
+			})
+		}
+		return true
+	})
+	return why
 }
 
 // evalBoolAssign gives a bool local that receives a non-constant boolean
